@@ -91,9 +91,9 @@ def tab3(units, R):
 
 # ---- TAB14 ---------------------------------------------------------------------------------------------------
 
-def _fresh_sources(u):
+def _fresh_sources(u, known=()):
     """Functions whose result is a fresh allocation (closure of 'returns the result of an allocator')."""
-    fresh = set()
+    fresh = set(known)
     changed = True
     while changed:
         changed = False
@@ -111,6 +111,8 @@ def _fresh_sources(u):
                     if cn in fresh or (cn is None and indirect_field(e) in ('allocate', 'reallocate')):
                         continue
                     ok = False
+                elif e.get('k') == 'ref' and e.get('dk') == 'param':
+                    ok = False      # a parameter carries the caller's value on some paths
                 elif e.get('k') == 'ref':
                     # local that is only assigned from fresh sources
                     defs = [a['r'] for a in assignments(fn) if is_ref(a['l']) and strip_casts(a['l'])['d'] == e['d']]
